@@ -425,6 +425,17 @@ def _run(mod, ctx: Ctx) -> int:
             elif not axioms_seen[tname] <= STD_AXIOMS:
                 broken.append(("audit", tname, f"non-standard axioms {sorted(axioms_seen[tname] - STD_AXIOMS)}"))
                 failed.add(tname)
+    # thorough tier: independent re-check of the compiled property modules
+    leanchecker = None
+    if ctx.thorough and ok and targets:
+        mods = targets_modules(targets)
+        try:
+            pc = subprocess.run(["lake", "env", "leanchecker", *mods], cwd=LEAN, capture_output=True, text=True, timeout=3000)
+            leanchecker = dict(modules=mods, rc=pc.returncode, tail=(pc.stdout + pc.stderr)[-300:])
+            if pc.returncode != 0:
+                broken.append(("audit", "leanchecker", (pc.stdout + pc.stderr)[-500:]))
+        except FileNotFoundError:
+            leanchecker = dict(modules=mods, rc=None, tail="leanchecker not found")
     forb = forbidden_tokens()
     for h in forb:
         broken.append(("audit", "forbidden-token", h))
@@ -575,6 +586,7 @@ def _run(mod, ctx: Ctx) -> int:
         known_findings_hit=sorted(known_hits),
         distribution=jsonable(total["dist"]),
         build_seconds=round(build_s, 1),
+        leanchecker=leanchecker,
         broken=[dict(kind=k, name=n, detail=d[:300]) for k, n, d in broken],
         notes=ctx.notes,
     )
